@@ -4,10 +4,13 @@
     state [s] shows; [mounted pre post s w]: the parent's children are
     [pre ++ nodes of s ++ post] without repetition.  KnownClass_C03 is the complement of
     [okv v /\ compat v s]: [okv] = no view that may own no node (StaticVec / Fragment, empty
-    array or tuple: F-C03-ab); [compat v s] = no element rebuilt in place whose [class:on]
-    toggle was on and whose class string / toggle do not put the token back (F-C03-c).
+    array or tuple: F-C03-ab; distinct keys in a keyed list); [compat v s] = no element
+    rebuilt in place whose [class:on] toggle was on and whose class string / toggle do not put
+    the token back (F-C03-c), and a retained row of a keyed list already shows what its item
+    view shows (tachys does not call view_fn again for a retained key).
     Covered: text (String, &str, i32), unit, elements with id / hidden / class / class:on /
-    style attributes, tuples, arrays, Either, EitherOf3, Option, Vec, AnyView type changes.
+    style attributes, tuples, arrays, Either, EitherOf3, Option, Vec, keyed lists (through
+    C11's theorem, the item views being arbitrary views of this grammar), AnyView type changes.
     All theorems are for arbitrary sibling contexts, nesting depth and histories. *)
 From Coq Require Import List NArith.
 From LV Require Import Base.Sexp Dom.Dom Dom.View Dom.ViewProofs Dom.ViewTop Dom.ViewRun Dom.ViewSer.
